@@ -289,6 +289,21 @@ def check(ctx, fx):
                 exp = X.strip(a[0]) if a else None
                 ctx.check("P2", "CAS moves Uninit -> InProgress", ok, "desired = kTablesInProgress",
                           "CAS desired value is %s" % (X.show(a[1]) if len(a) > 1 else "?"), where=where)
+                # ... and FROM Uninit only: the expected value is the constant, not something read earlier (a thread that read
+                # InProgress and hands that in as `expected` wins the exchange too and initialises a second time, rewriting the
+                # published pointers under the readers)
+                init = None
+                if isinstance(exp, dict) and exp.get("k") == "ref" and exp.get("kind") == "local":
+                    init = C.single_inits(f).get(exp.get("id"))
+                i0 = X.strip(init) if init is not None else None
+                from_uninit = isinstance(i0, dict) and ((i0.get("k") == "ref" and (i0.get("qname") or i0.get("name") or "").endswith("kTablesUninit"))
+                                                       or (i0.get("k") == "lit" and False))
+                ctx.check("P3", "the CAS that elects the initialiser expects the constant kTablesUninit", from_uninit,
+                          "expected = kTablesUninit",
+                          "the CAS's expected value is `%s`, not the constant kTablesUninit: a thread that observed any other state it "
+                          "hands in as expected (e.g. InProgress) wins the exchange as well, so more than one thread runs the "
+                          "initialiser and rewrites the table pointers that readers already use" % (X.show(i0) if i0 is not None else X.show(exp)),
+                          where=where)
             elif nm in ATOMIC_WRITES or nm in ("operator unsigned char", "operator T"):
                 n_ops += 1
                 ctx.fail("P2", key, "implicit (seq_cst) or unexpected atomic operation `%s` on the init state — triage" % nm,
